@@ -37,6 +37,9 @@ def main():
             pf = os.path.join(sdir, "patch.diff")
         rc, o = sh("git -C %s apply %s" % (wt, pf))
         if rc != 0:
+            # patches of CRLF files were stored with LF only: the context then differs in the line ending
+            rc, o = sh("git -C %s apply --ignore-whitespace %s" % (wt, pf))
+        if rc != 0:
             print("patch does not apply: " + o[-400:])
             return 2
         out = {}
